@@ -3,7 +3,7 @@ C02 (verdict), C16 (no layer after a bad outcome under --stop-on-error)."""
 import os
 
 HERE = os.path.dirname(os.path.abspath(__file__))
-TEST_GHOST = {'bad': 'int', 'ntd': 'bool', 'attempted': 'Set[Layer]', 'ran': 'int', 'stdout': 'Stream', 'stderr': 'Stream', 'tsu': 'bool', 'hookexc': 'bool',
+TEST_GHOST = {'bad': 'int', 'ntd': 'bool', 'attempted': 'Set[Layer]', 'up': 'Set[Layer]', 'ran': 'int', 'stdout': 'Stream', 'stderr': 'Stream', 'tsu': 'bool', 'hookexc': 'bool',
               'cap_out': 'Opt[Str]', 'cap_err': 'Opt[Str]'}
 STREAMS_SAME = "G.stdout == old(G.stdout) and G.stderr == old(G.stderr)"
 
@@ -46,17 +46,28 @@ RESUME_TESTS = {            # assumed here; body under contract in the C06 check
     'raises': {'OtherBase': []},
 }
 
+# C03: in the parent, the layers still to run are always the tail of the ordered list behind the ones whose tests were
+# run in this process -- so what is handed to resume_tests is exactly every layer that was not run here
+HANDOVER = ("implies(not bool(self.options.resume_layer), G.nrun >= 0 and"
+            " G.nrun + len(layers_to_run) == pre(len(layers_to_run), '#loop1') and"
+            " forall(i, Int, implies(0 <= i and i < len(layers_to_run),"
+            " layers_to_run[i] == pre(layers_to_run, '#loop1')[G.nrun + i])))")
+RUN_LAYER_STMT = ("self.ran += run_layer(self.options, layer_name, layer, tests, setup_layers, self.failures, self.errors, "
+                  "self.skipped, self.import_errors)")
+
 RUNNER_RUN_TESTS = {
     'property': ['C01', 'C02', 'C16'],
     'params': {},
     'self_fields': SELF_FIELDS,
-    'ghost': TEST_GHOST,
+    'ghost': dict(TEST_GHOST, nrun='int'),
+    'ghost_code': {RUN_LAYER_STMT: ['G.nrun = G.nrun + 1']},        # run_layer returned: this layer's tests were run here
     'locals': {'setup_layers': 'Dict[Layer,int]'},
-    'requires': ["WF()", "not G.ntd", "not G.tsu", "not G.hookexc"],
-    'modifies': ['G.attempted', 'G.ran', 'self.ran', 'self.failures', 'self.errors', 'self.skipped', 'self.failed', 'G.bad', 'G.ntd',
+    'requires': ["WF()", "not G.ntd", "not G.tsu", "not G.hookexc", "G.nrun == 0", "forall(l, Layer, l not in G.up)"],
+    'modifies': ['G.nrun', 'G.up', 'G.attempted', 'G.ran', 'self.ran', 'self.failures', 'self.errors', 'self.skipped', 'self.failed', 'G.bad', 'G.ntd',
                  'G.stdout', 'G.stderr', 'G.tsu', 'G.hookexc', 'G.cap_out', 'G.cap_err'],
     'ensures': [
         "forall(l, Layer, l not in setup_layers)",                                       # C01: every set-up layer was torn down
+        "forall(l, Layer, l not in G.up)",                          # ... really every one: nothing set up was ever forgotten
         "self.failed == (len(self.import_errors) + len(self.failures) + len(self.errors) > 0)",   # C02: verdict
         "implies(not self.options.post_mortem, " + SBAD + ")",                            # C02: one entry per bad outcome
         STREAMS_SAME,                                                                     # C13/C18
@@ -70,7 +81,9 @@ RUNNER_RUN_TESTS = {
     # C04: apart from KeyboardInterrupt & co. and MemoryError only an exception of a per-test layer hook escapes
     'raises': {'OtherBase': [STREAMS_SAME], 'KeyboardInterrupt': [STREAMS_SAME], 'MemoryError': [STREAMS_SAME],
                'Exception': ["G.hookexc", STREAMS_SAME]},
+    'props': {HANDOVER: ['C03', 'C01']},
     'callsites': {
+        'resume_tests': [HANDOVER],
         'run_layer': [
             "not G.ntd",                                                                  # C01: nothing after a refused tearDown
             # C16: under --stop-on-error no further layer once a failure or an error has been recorded by this loop
@@ -82,6 +95,7 @@ RUNNER_RUN_TESTS = {
         '#loop1': [
             "closed(setup_layers)", "object not in setup_layers",
             "forall(l, Layer, implies(l in G.attempted, l not in setup_layers))",
+            "forall(l, Layer, iff(l in G.up, l in setup_layers))",
             "not G.ntd or len(layers_to_run) == 0",
             "implies(bool(self.options.resume_layer), len(layers_to_run) <= 1)",
             "forall(i, Int, implies(0 <= i and i < len(layers_to_run), layers_to_run[i][1] != object))",
@@ -90,7 +104,7 @@ RUNNER_RUN_TESTS = {
             "implies(self.options.stop_on_error, len(self.failures) == pre(len(self.failures), '#loop1')"
             " and len(self.errors) == pre(len(self.errors), '#loop1'))",
             "self.ran - old(self.ran) == G.ran - old(G.ran)",
-            "not should_resume", "not G.tsu", "not G.hookexc", STREAMS_SAME,
+            "not should_resume", "not G.tsu", "not G.hookexc", STREAMS_SAME, HANDOVER,
         ],
         '#loop2': [],
     },
